@@ -154,7 +154,7 @@ def scenarios(draw, tier="quick"):
     ops.append(["speed_info", "h0"])
     if cpu == "TI" and "speed" not in kinds:      # Host::get_available_speed() segfaults there (known finding of C19): not called
         ops = [o for o in ops if o[0] != "speed_info"] or [["sleep", 1.0]]
-    actors.append({"name": "w0", "host": "h0", "on_exit": 1, "ops": ops, "auto_restart": draw(st.booleans()) if "hstate" in kinds else False})
+    actors.append({"name": "w0", "host": "h0", "on_exit": 1, "ops": ops, "auto_restart": draw(st.booleans()) if ("hstate" in kinds and not h0["state_profile"]["period"] > 0) else False})
     # r0: remote executions on the profiled host from h1 (second core), observations
     ops = []
     for _ in range(draw(st.integers(1, 5))):
@@ -239,6 +239,12 @@ class Ref:
     def is_on(evs, t):
         return value_at(evs, 1, t) > 0
 
+    @staticmethod
+    def on_states(evs, t):
+        """the admissible states at date t: both when t is within rounding distance of a switch"""
+        v, adm = value_at(evs, 1, t, tol=TOL * max(1.0, t))
+        return {x > 0 for x in adm}
+
 
 def check_c22(case, log, oc, labels):
     cfg = case["cfg"]
@@ -267,7 +273,10 @@ def check_c22(case, log, oc, labels):
                 if l.get("k") == kind and l.get("name") == name]
 
     def compare(what, obs, exp, sig):
-        exp = [e for e in exp if e[0] <= t_end]
+        tol_end = TOL * max(1.0, t_end)
+        exp = [e for e in exp if e[0] <= t_end + tol_end]
+        while len(exp) > len(obs) and exp and exp[-1][0] > t_end - tol_end:
+            exp = exp[:-1]          # an event within rounding distance of the last date may or may not have fired
         if len(obs) != len(exp) or any(not close(o[0], e[0]) or o[1] != e[1] for o, e in zip(obs, exp)):
             k = 0
             while k < min(len(obs), len(exp)) and close(obs[k][0], exp[k][0]) and obs[k][1] == exp[k][1]:
@@ -307,10 +316,10 @@ def check_c22(case, log, oc, labels):
             break
         if "lat_profile" in l0 and not expect_value("sampled latency of l0", t, T(l["lat"]["l0"]), ref.lat_ev, ref.lat0, 1.0, "sampled-latency-differs"):
             break
-        if "state_profile" in h0 and "on" in l and l["on"]["h0"] != Ref.is_on(ref.hstate_ev, t):
+        if "state_profile" in h0 and "on" in l and l["on"]["h0"] not in Ref.on_states(ref.hstate_ev, t):
             oc.bad("sampled-host-state-differs", "h0 is %s at date %r, the profile says %s" % (l["on"]["h0"], t, Ref.is_on(ref.hstate_ev, t)))
             break
-        if "state_profile" in l0 and l["lon"]["l0"] != Ref.is_on(ref.lstate_ev, t):
+        if "state_profile" in l0 and l["lon"]["l0"] not in Ref.on_states(ref.lstate_ev, t):
             oc.bad("sampled-link-state-differs", "l0 is %s at date %r, the profile says %s" % (l["lon"]["l0"], t, Ref.is_on(ref.lstate_ev, t)))
             break
 
@@ -325,13 +334,21 @@ def check_c22(case, log, oc, labels):
     def speed_changes():
         return [(d, v * ref.peak) for d, v in ref.speed_ev]
 
-    def exec_expect(t0, flops, local):
+    # at date 0 the first slice of the actors runs before the events of date 0 are applied (first solve): what is requested at date 0 before the
+    # first time step sees the nominal state and is hit by the events of date 0, what is requested after it sees their result
+    n_first = min([l["n"] for l in log.of("adv")] or [1 << 60])
+
+    def since(t0, n):
+        """the date from which (exclusive) events can hit something requested at (t0, line n)"""
+        return -1.0 if (t0 == 0.0 and n < n_first) else t0
+
+    def exec_expect(t0, flops, local, n):
         """(kind, date): 'done' | 'fail' (HostFailure for a remote waiter, death for a local one) | 'tie'"""
-        if not Ref.is_on(ref.hstate_ev, t0) and t0 > 0:
+        if not Ref.is_on(ref.hstate_ev, t0) and since(t0, n) == t0:
             return ("fail", t0)
         rate0 = value_at(ref.speed_ev, 1.0, t0) * ref.peak
         fin = solve_integral(t0, flops, rate0, [c for c in speed_changes() if c[0] > t0])
-        off = Ref.next_off(ref.hstate_ev, t0 if t0 > 0 else -1.0)
+        off = Ref.next_off(ref.hstate_ev, since(t0, n))
         if close(fin, off):
             return ("tie", fin)
         return ("done", fin) if fin < off else ("fail", off)
@@ -354,19 +371,19 @@ def check_c22(case, log, oc, labels):
             t0, op = T(l["t"]), l["op"]
             nxt = recs[k] if k < len(recs) else None
             # at date 0 the first slice of the actors runs before the events of date 0 are applied
-            death = Ref.next_off(ref.hstate_ev, t0 if t0 > 0 else -1.0) if local else math.inf
+            death = Ref.next_off(ref.hstate_ev, since(t0, l["n"])) if local else math.inf
             if op[0] == "speed_info":
                 if nxt is not None and nxt["k"] == "ret" and "r" in nxt:
                     r = nxt["r"]
                     if "speed_profile" in h0:
                         expect_value("Host::get_available_speed of h0 seen by %s" % an, t0, T(r["avail"]), ref.speed_ev, 1.0, 1.0, pre + "observed-speed-differs")
-                    if "state_profile" in h0 and r["on"] != Ref.is_on(ref.hstate_ev, t0) and t0 > 0:
+                    if "state_profile" in h0 and r["on"] not in Ref.on_states(ref.hstate_ev, t0) and t0 > 0:
                         oc.bad(pre + "observed-host-state-differs", "%s sees h0 %s at %r" % (an, "on" if r["on"] else "off", t0))
                 continue
             if op[0] == "sleep":
                 want = ("done", t0 + max(op[1], 0.0)) if t0 + op[1] < death or math.isinf(death) else (("tie", death) if close(t0 + op[1], death) else ("fail", death))
             elif op[0] == "exec":
-                want = exec_expect(t0, op[1], local)
+                want = exec_expect(t0, op[1], local, l["n"])
                 inside = [d for d, _ in ref.speed_ev if t0 < d < want[1]]
                 if inside:
                     labels.add("speed-event-inside-exec")
@@ -396,6 +413,9 @@ def check_c22(case, log, oc, labels):
                 else:
                     if local:
                         oc.bad(pre + "dead-actor-goes-on", "w0 %s started at %r returned at %r although h0 goes off at %r" % (op, t0, t1, want[1]))
+                    elif nxt.get("exc") == "Cancel" and any(close(d, want[1]) and on for d, on in Ref.switches(ref.hstate_ev)):
+                        oc.bad("zero-length-outage:cancel-instead-of-host-failure", "r0 %s started at %r got Cancel at %r: h0 goes off and comes back at the very same date %r, the execution "
+                               "is failed by the outage but the exception is chosen from the state of the host afterwards" % (op, t0, t1, want[1]))
                     elif ok or nxt.get("exc") != "HostFailure":
                         oc.bad(pre + "failure-not-reported", "r0 %s started at %r returned %s at %r although h0 goes off at %r" % (op, t0, nxt.get("exc", "normally"), t1, want[1]))
                     elif not close(t1, want[1]):
@@ -416,9 +436,9 @@ def check_c22(case, log, oc, labels):
         t0 = max(T(pl["t"]), T(gl["t"]))
         size = pl["op"][2]
         pr, gr = rets.get(("s1", pl["i"])), rets.get(("g2", gl["i"]))
-        in_lat, in_tr = [], []
+        in_lat, in_tr, amb0 = [], [], False
         want_capped, cap = [], None
-        if not Ref.is_on(ref.lstate_ev, t0) and t0 > 0:
+        if not Ref.is_on(ref.lstate_ev, t0) and since(t0, max(pl["n"], gl["n"])) == t0:
             want = ("fail", t0)
             L = 0.0
         else:
@@ -443,12 +463,17 @@ def check_c22(case, log, oc, labels):
             cap = sorted(caps)
             if [d for d, _ in ref.bw_ev if t0 + L < d < fin]:
                 labels.add("bandwidth-event-inside-transfer")
-            in_tr = [d for d, _ in ref.lat_ev if t0 + L <= d < fin and d > t0]
+            in_tr = [d for d, _ in ref.lat_ev if t0 + L <= d and (d < fin or close(d, fin)) and d > t0]
             if in_tr:
                 labels.add("latency-event-inside-transfer")
-            off = Ref.next_off(ref.lstate_ev, t0 if t0 > 0 else -1.0)
+            off = Ref.next_off(ref.lstate_ev, since(t0, max(pl["n"], gl["n"])))
             want = ("tie", fin) if close(fin, off) else (("done", fin) if fin < off else ("fail", off))
-            want_capped = [("done", f) if f < off else ("fail", off) for f in fin_capped]
+            want_capped = []
+            for f in fin_capped:
+                if close(f, off):
+                    want_capped += [("done", f), ("fail", off)]
+                else:
+                    want_capped.append(("done", f) if f < off else ("fail", off))
             if (in_lat and not noop) or amb0:
                 want = ("unspecified", fin)
             if want[0] == "fail":
@@ -456,7 +481,7 @@ def check_c22(case, log, oc, labels):
         for who, r in (("s1", pr), ("g2", gr)):
             if r is None:
                 if want[0] != "unspecified" or True:
-                    oc.bad("latency-event-disturbs-comm:never-completes" if (in_lat or in_tr) else "comm-never-completes",
+                    oc.bad("latency-event-disturbs-comm:never-completes" if (in_lat or in_tr or amb0) else "comm-never-completes",
                            "%s: the communication of %r bytes started at %r never ended (expected %s at %r; latency %r)" % (who, size, t0, want[0], want[1], L))
                 break
             t1 = T(r["t"])
@@ -498,7 +523,7 @@ def check_c22(case, log, oc, labels):
                     expect_value("Link::get_bandwidth of l0 seen by %s" % an, t0, T(r["bw"]), ref.bw_ev, ref.bw0, 1.0, "observed-bandwidth-differs")
                 if "lat_profile" in l0:
                     expect_value("Link::get_latency of l0 seen by %s" % an, t0, T(r["lat"]), ref.lat_ev, ref.lat0, 1.0, "observed-latency-differs")
-                if "state_profile" in l0 and r["on"] != Ref.is_on(ref.lstate_ev, t0) and t0 > 0:
+                if "state_profile" in l0 and r["on"] not in Ref.on_states(ref.lstate_ev, t0) and t0 > 0:
                     oc.bad("observed-link-state-differs", "%s sees l0 %s at %r" % (an, "on" if r["on"] else "off", t0))
     # classification
     for name, prof in (("speed", h0.get("speed_profile")), ("hstate", h0.get("state_profile")), ("bw", l0.get("bw_profile")),
